@@ -559,6 +559,8 @@ class Session:
             v = getattr(self, "last_loaded_data", None)
             if v is not None and v not in self.owned_streams:
                 self.owned_streams.append(v)
+                r = v.fields["reader"]
+                self.payload = z3.Concat(r.consumed, r.incoming)  # everything the peer will ever send on this data stream
         if name == "passive_server" and how == "set":
             pool = self.server.fields.get("available_data_ports")
             if pool is not None:
